@@ -67,7 +67,7 @@ def make_manager(c):
     return configure(GHEManager(), c)
 
 
-def configure(g, c, only=None):
+def configure(g, c, only=None, design=True):
     """the public setters, in the command-line order, on a manager that may have been configured (and used) before.
     only = a section name: just the setter(s) of that section of the input are called (followed by set_design)."""
     from ghedesigner.enums import BHPipeType, DesignGeomType
@@ -133,7 +133,8 @@ def configure(g, c, only=None):
                                                min_rotation=gc["min_rotation"], rotate_step=gc["rotate_step"],
                                                property_boundary=gc["property_boundary"],
                                                no_go_boundaries=gc["no_go_boundaries"])
-    g.set_design(flow_rate=dz["flow_rate"], flow_type_str=dz["flow_type"])
+    if design:
+        g.set_design(flow_rate=dz["flow_rate"], flow_type_str=dz["flow_type"])
     return g
 
 
@@ -266,6 +267,14 @@ def run(cfg, outdir=None, with_series=False):
                 except ValueError:
                     pass
             configure(g, c, only=sec)
+        elif c.get("_set_after_design_without_set_design"):
+            # complete set-up (set_design included) with OTHER values in one section; then only that section's setter is called with the
+            # requested values and find_design follows directly — set_design is NOT called again
+            sec = c["_set_after_design_without_set_design"]["section"]
+            first = json.loads(json.dumps(c))
+            first[sec].update(c["_set_after_design_without_set_design"]["values"])
+            g = make_manager(first)
+            configure(g, c, only=sec, design=False)
         elif c.get("_design_first_set_with"):
             # set_design was called before with another flow specification; only set_design is called again (no other setter)
             first = json.loads(json.dumps(c))
